@@ -20,7 +20,8 @@ for f in sorted(glob.glob("/tmp/seed/confirm*.jsonl")):
             if not m:
                 continue
             d = {"seed": m.group(1), "demo_clean_exit": int(m.group(2)), "demo_patched_exit": int(m.group(3)), "compiles": int(m.group(4)), "suite": m.group(5)}
-        conf[d["seed"]] = d
+        if "seed" in d:
+            conf[d["seed"]] = d
 only = sys.argv[1:]
 for sd, c in sorted(conf.items()):
     prop, x = sd.split("/")[3], sd.split("/")[5]
